@@ -173,6 +173,8 @@ pub fn main(args: &[String], which: &str) {
     for i in 0..n {
         let mut c = ppref::gen_case(&mut rng, i, prop.opts, prop.includes);
         if which == "c10" { c.ignore = rng.chance(1, 4); }
+        // the define table must not depend on the two mode flags being told apart inside expansions: vary them independently
+        if which == "c11" { c.strip = rng.chance(1, 2); c.ignore = rng.chance(1, 5); }
         if which == "c04" || which == "c03" { c.strip = false; }
         materialise(&root, &c);
         cases.push(c);
